@@ -4,6 +4,9 @@ import "fmt"
 
 func runExtraEngine(name string, w *World, o *options, res *checkResult) error {
 	switch name {
+	case "callsites":
+		w.runCallSites(o, res)
+		return nil
 	}
 	return fmt.Errorf("unknown engine %q", name)
 }
